@@ -23,7 +23,13 @@
 //   Not judged (no normative definition in the repository): generalised variograms, covariogram and flag_sample=true
 //   ("by sample" accumulation), transition/binormal cross terms, Poisson weights.
 //
-// Finding keys: vario:<quantity>:<calc class>:<direction class>, grid:<quantity>, e.g. vario:sw:variogram:tolang.
+//   Grid algorithm: every grid case (1-3 variables, undefined patterns per variable incl. ALL patterns on tiny grids, weights,
+//   selections, rotated grids, createFromGrid and createMultipleFromGrid, 2-D and 3-D, all 10 calculation types) is compared
+//   three ways for all (ivar,jvar): grid vs pair definition, general algorithm on the same nodes vs pair definition, grid vs
+//   general slot by slot.
+//
+// Finding keys: <channel>:<quantity>:<calc>:<direction class>[:heterotopic][:cross], channel = vario | grid, and
+//   grid-vs-general:<quantity>:<calc>[:cross][:heterotopic], e.g. vario:sw:variogram:regular+tolang, grid:sw:variogram:grid:heterotopic.
 #include "vf/gst.hpp"
 
 #include "Enum/ECalcVario.hpp"
@@ -242,17 +248,25 @@ static std::string caseText(const VCase& c, int idir)
 }
 
 // run the real code on the case and judge every direction / variable pair / lag. returns #directions judged
-static int runAndJudge(Ctx& C, const VCase& c, const std::string& kase, uint64_t sig, const char* channel = "vario")
+// Optional arguments (used by the grid parts): dbUse / vpUse = run on this Db with this VarioParam instead of the ones built
+// from the case; refUse = reference per direction computed by the caller; keep = hand the Vario back instead of deleting
+// it; clsUse = direction class for the finding key; extra = text appended to the description of the case.
+static int runAndJudge(Ctx& C, const VCase& c, const std::string& kase, uint64_t sig, const char* channel = "vario",
+                       Db* dbUse = nullptr, const VarioParam* vpUse = nullptr, const std::vector<RefDir>* refUse = nullptr,
+                       Vario** keep = nullptr, const char* clsUse = nullptr, const std::string& extra = "")
 {
-  Db* db = buildDb(c);
-  VarioParam vp = buildParam(c);
+  Db* db = dbUse ? dbUse : buildDb(c);
+  VarioParam vpLocal;
+  if (!vpUse) vpLocal = buildParam(c);
+  const VarioParam& vp = vpUse ? *vpUse : vpLocal;
   Vario* v = Vario::computeFromDb(vp, db, calcEnum(c.calc), false, false, nullptr, 0, false);
   int judged = 0;
   C.eval();
+  if (keep) *keep = v;
   if (v == nullptr)
   {
-    C.violation(std::string(channel) + ":compute-failed:" + calcName[c.calc], "Vario::computeFromDb returned null :: " + caseText(c, 0), kase);
-    delete db;
+    C.violation(std::string(channel) + ":compute-failed:" + calcName[c.calc], "Vario::computeFromDb returned null :: " + caseText(c, 0) + extra, kase);
+    if (!dbUse) delete db;
     return 0;
   }
   int nvar = (int)c.z.size();
@@ -267,25 +281,27 @@ static int runAndJudge(Ctx& C, const VCase& c, const std::string& kase, uint64_t
   {
     // which ends must be defined for an ordered pair of a cross-covariance is not written anywhere: executed, not judged
     C.skip(); C.outcome("not-judged:covariance-of-heterotopic-data");
-    delete v; delete db;
+    if (!keep) delete v;
+    if (!dbUse) delete db;
     return 0;
   }
   for (int idir = 0; idir < (int)c.dirs.size(); idir++)
   {
     const Dir& D = c.dirs[idir];
-    RefDir r = referenceDir(c, D);
+    RefDir r = refUse ? (*refUse)[idir] : referenceDir(c, D);
     if (r.border) { C.skip(); C.outcome("excluded:pair-on-a-class/angle/cylinder/bench-border"); continue; }
     judged++;
     int npas = D.breaks.empty() ? D.npas : (int)D.breaks.size() - 1;
     int nslot = asym ? 2 * npas + 1 : npas;
-    std::string kcls = std::string(calcName[c.calc]) + ":" + D.cls();
+    std::string kcls = std::string(calcName[c.calc]) + ":" + (clsUse ? std::string(clsUse) : D.cls());
+    if (hasNA) kcls += ":heterotopic";
     bool bad = false;
     for (int iv = 0; iv < nvar && !bad; iv++)
       for (int jv = 0; jv <= iv && !bad; jv++)
       {
         VectorDouble sw = v->getSwVec(idir, iv, jv, false), hh = v->getHhVec(idir, iv, jv, false), gg = v->getGgVec(idir, iv, jv, false, false, false);
         const std::vector<Acc>& A = r.acc[iv * (iv + 1) / 2 + jv];
-        auto where = [&](int s) { return " var(" + std::to_string(iv) + "," + std::to_string(jv) + ") slot " + std::to_string(s) + " :: " + caseText(c, idir); };
+        auto where = [&](int s) { return " var(" + std::to_string(iv) + "," + std::to_string(jv) + ") slot " + std::to_string(s) + " :: " + caseText(c, idir) + extra; };
         if ((int)sw.size() != nslot || (int)hh.size() != nslot || (int)gg.size() != nslot)
         {
           C.violation(std::string(channel) + ":vector-size:" + kcls, "getters return " + std::to_string(sw.size()) + "/" + std::to_string(hh.size()) + "/" + std::to_string(gg.size()) + " values for " + std::to_string(nslot) + " lags" + where(0), kase);
@@ -368,7 +384,8 @@ static int runAndJudge(Ctx& C, const VCase& c, const std::string& kase, uint64_t
     else C.outcome(r.npairs == 0 ? "ok:no-pair-in-any-lag" : r.rejected ? "ok:some-pairs-kept-some-rejected" : "ok:all-pairs-kept");
   }
   if (nontriv) C.nontrivial(sig);
-  delete v; delete db;
+  if (!keep) delete v;
+  if (!dbUse) delete db;
   return judged;
 }
 
@@ -441,6 +458,30 @@ static std::vector<Dir> dirsSmall2D()
 static int popcount(unsigned v) { return __builtin_popcount(v); }
 static const double VALS[4] = {0., 1., 3., TEST};
 
+// Widen a case to multivariate / heterotopic / weighted / masked data (mode 0: as is).
+//   mode 1: a second variable; for the symmetric estimators undefined values at different places in the two variables
+//           (Z1 missing where Z2 is defined and vice versa); dyadic weights; one sample masked when there are >= 5.
+//   mode 2: three isotopic variables with weights (keeps the covariances judged).
+static void widen(VCase& c, int mode)
+{
+  if (mode == 0) return;
+  int n = (int)c.x.size();
+  bool asym = isAsym(c.calc);
+  while ((int)c.z.size() < (mode == 2 ? 3 : 2))
+  {
+    int iv = (int)c.z.size();
+    std::vector<double> z(n);
+    for (int k = 0; k < n; k++) z[k] = iv == 1 ? (double)((3 * k + 1) % 5) : (double)((k * k + k + 2) % 6);
+    c.z.push_back(z);
+  }
+  if (!c.hasW) { c.hasW = true; c.w.resize(n); for (int k = 0; k < n; k++) c.w[k] = 1. + ((k * 3) % 4) * 0.25; }
+  if (mode == 1)
+  {
+    if (!asym && n >= 3) for (int k = 0; k < n; k++) { if (k % 4 == 1) c.z[0][k] = TEST; if (k % 3 == 0) c.z[1][k] = TEST; }
+    if (n >= 5 && !c.hasSel) { c.hasSel = true; c.sel.assign(n, 1); c.sel[2] = 0; }
+  }
+}
+
 // ---- part: geometry — every subset of the 3x3 lattice x the complete direction menu (pair logic) ---------------------
 VF_PART(geometry_2d)
 {
@@ -448,7 +489,7 @@ VF_PART(geometry_2d)
   std::vector<P3> all = lat2(3);
   std::vector<Dir> dirs = dirs2D(true);
   Space sp;
-  sp.axis("calc", 2).axis("subset", 512);
+  sp.axis("calc", 2).axis("subset", 512).axis("data", 3);
   auto valid = [&](const std::vector<int>& idx) { int pc = popcount(idx[1]); return pc >= 2 && pc <= (C.thorough() ? 9 : 6); };
   for_each_valid(C, sp, valid, [&](uint64_t id, const std::vector<int>& idx) {
     VCase c; c.calc = idx[0] == 0 ? VARIOGRAM : COVARIANCE;
@@ -456,6 +497,7 @@ VF_PART(geometry_2d)
     for (int k = 0; k < 9; k++) if (idx[1] >> k & 1) { c.x.push_back(all[k]); z.push_back((double)((k * k + 2 * k) % 7)); }
     c.z.push_back(z);
     c.dirs = dirs;
+    widen(c, idx[2]);
     runAndJudge(C, c, std::to_string(id), id);
     if (id % 97 == 5) C.sample("{\"id\":" + std::to_string(id) + ",\"subset_mask\":" + std::to_string(idx[1]) + ",\"calc\":" + jstr(calcName[c.calc]) + ",\"directions\":" + std::to_string(dirs.size()) + "}");
   });
@@ -548,7 +590,7 @@ VF_PART(order_translation)
   }
   static const double tr[3][2] = {{0, 0}, {-8.5, 16.25}, {1024, -3.75}};
   Space sp;
-  sp.axis("calc", 3).axis("translation", 3).axis("perm", 120).axis("subset", 512);
+  sp.axis("calc", 3).axis("translation", 3).axis("perm", 120).axis("subset", 512).axis("data", 2);
   auto valid = [&](const std::vector<int>& idx) {
     int pc = popcount(idx[3]);
     if (pc < 3 || pc > 5) return false;
@@ -572,6 +614,7 @@ VF_PART(order_translation)
     }
     c.z.push_back(z); c.z.push_back(z2);
     c.dirs = dirs;
+    widen(c, idx[4]);
     runAndJudge(C, c, std::to_string(id), id);
   });
 }
@@ -585,7 +628,7 @@ VF_PART(dim1)
   { Dir D; D.npas = (int)l[0]; D.dpas = l[1]; D.toldis = l[2]; D.codir = {1.}; dirs.push_back(D); }
   { Dir D; D.breaks = {0, 1.5, 2.5, 6}; D.codir = {1.}; dirs.push_back(D); }
   Space sp;
-  sp.axis("calc", 4).axis("reverse", 2).axis("values", 3).axis("subset", 128);
+  sp.axis("calc", 4).axis("reverse", 2).axis("values", 3).axis("subset", 128).axis("data", 3);
   for_each_case(C, sp, [&](uint64_t id, const std::vector<int>& idx) {
     if (popcount(idx[3]) < 2) return;
     static const int calcs[] = {VARIOGRAM, COVARIANCE, COVARIANCE_NC, ORDER4};
@@ -600,6 +643,7 @@ VF_PART(dim1)
     if (idx[1]) { std::reverse(c.x.begin(), c.x.end()); std::reverse(z.begin(), z.end()); }
     c.z.push_back(z);
     c.dirs = dirs;
+    widen(c, idx[4]);
     runAndJudge(C, c, std::to_string(id), id);
   });
   setDim(2);
@@ -624,11 +668,12 @@ VF_PART(dim3)
           Dir E = D; E.npas = 4; E.dpas = 0.5; E.toldis = 0.25; dirs.push_back(E);
         }
   Space sp;
-  sp.axis("calc", 2).axis("subset", 1 << 12);
+  sp.axis("calc", 2).axis("subset", 1 << 12).axis("data", 3);
   auto valid = [&](const std::vector<int>& idx) {
     int pc = popcount(idx[1]);
     if (pc < 2 || pc > (C.thorough() ? 12 : 5)) return false;
     if (!C.thorough() && pc == 5 && idx[1] % 3) return false;
+    if (C.thorough() && idx[2] && pc > 8 && idx[1] % 4) return false;   // widened data on a quarter of the big subsets
     return true;
   };
   for_each_valid(C, sp, valid, [&](uint64_t id, const std::vector<int>& idx) {
@@ -637,6 +682,7 @@ VF_PART(dim3)
     for (int k = 0; k < 12; k++) if (idx[1] >> k & 1) { c.x.push_back(all[k]); z.push_back((double)((k * k + k) % 5)); }
     c.z.push_back(z);
     c.dirs = dirs;
+    widen(c, idx[2]);
     runAndJudge(C, c, std::to_string(id), id);
   });
   setDim(2);
@@ -648,7 +694,7 @@ VF_PART(larger_sets)
   setDim(2);
   std::vector<Dir> dirs = dirs2D(true);
   Space sp;
-  sp.axis("calc", 4).axis("layout", 6).axis("weights", 2).axis("order", 3);
+  sp.axis("calc", 4).axis("layout", 6).axis("weights", 2).axis("order", 3).axis("data", 2);
   for_each_case(C, sp, [&](uint64_t id, const std::vector<int>& idx) {
     static const int calcs[] = {VARIOGRAM, COVARIANCE, RODOGRAM, COVARIANCE_NC};
     VCase c; c.calc = calcs[idx[0]];
@@ -677,103 +723,290 @@ VF_PART(larger_sets)
     }
     c.z.push_back(z); c.z.push_back(z2);
     c.dirs = dirs;
+    widen(c, idx[4]);
     runAndJudge(C, c, std::to_string(id), id);
     C.sample("{\"id\":" + std::to_string(id) + ",\"n\":" + std::to_string(c.x.size()) + ",\"calc\":" + jstr(calcName[c.calc]) + "}");
   });
 }
 
-// ---- part: grid algorithm (DirParam::createFromGrid + _calculateOnGridSolution) -------------------------------------------
-// reference: pairs (node, node + k*grincr), k = 1..npas-1, lag k, distance k*|grincr.dx|.
+// ---- grid algorithm (DirParam::createFromGrid / VarioParam::createMultipleFromGrid + _calculateOnGridSolution) ----------
+// Three-way comparison for EVERY (ivar,jvar) pair and every lag:
+//   (1) grid algorithm  vs  brute-force definition: pairs (node, node + k*grincr), k = 1..npas-1, lag k, distance k*|grincr.dx|,
+//       a pair contributing to (ivar,jvar) iff both variables are defined at both nodes (same rules as the general reference);
+//   (2) general algorithm on the same nodes taken as isolated points (direction = grid direction, tiny tolerances) vs its own
+//       brute-force reference;
+//   (3) grid algorithm vs general algorithm, slot by slot, for ALL calculation types (also those without a written
+//       definition: the statement says the two algorithms agree on gridded data).
+struct GCase
+{
+  int ndim = 2;
+  std::vector<int> nn;            // nodes per axis
+  std::vector<double> dx;
+  bool rot = false;
+  int calc = 0;
+  std::vector<std::vector<double>> z;   // [nvar][n]
+  bool hasW = false; std::vector<double> w;
+  bool hasSel = false; std::vector<char> sel;
+  int npas = 3;
+  std::vector<std::vector<int>> gis;    // grid increments, one per direction
+  bool multiple = false;                // directions from VarioParam::createMultipleFromGrid instead
+};
+
+static RefDir gridReference(const GCase& g, const std::vector<int>& gi, double step)
+{
+  RefDir r;
+  int nvar = (int)g.z.size(), npas = g.npas;
+  bool asym = isAsym(g.calc);
+  int nslot = asym ? 2 * npas + 1 : npas;
+  r.acc.assign(nvar * (nvar + 1) / 2, std::vector<Acc>(nslot));
+  int n = 1; for (int v : g.nn) n *= v;
+  std::vector<int> ind(g.ndim), ind2(g.ndim);
+  for (int a = 0; a < n; a++)
+  {
+    int t = a; for (int d = 0; d < g.ndim; d++) { ind[d] = t % g.nn[d]; t /= g.nn[d]; }
+    if (g.hasSel && !g.sel[a]) continue;
+    for (int k = 1; k < npas; k++)
+    {
+      bool in = true; int b = 0, mul = 1;
+      for (int d = 0; d < g.ndim; d++) { ind2[d] = ind[d] + k * gi[d]; if (ind2[d] < 0 || ind2[d] >= g.nn[d]) in = false; b += ind2[d] * mul; mul *= g.nn[d]; }
+      if (!in) continue;
+      if (g.hasSel && !g.sel[b]) continue;
+      r.npairs++;
+      double ww = (g.hasW ? g.w[a] : 1.) * (g.hasW ? g.w[b] : 1.), d = k * step;
+      for (int iv = 0; iv < nvar; iv++)
+        for (int jv = 0; jv <= iv; jv++)
+        {
+          double a1 = g.z[iv][a], a2 = g.z[iv][b], b1 = g.z[jv][a], b2 = g.z[jv][b];
+          if (FFFF(a1) || FFFF(a2) || FFFF(b1) || FFFF(b2)) continue;
+          std::vector<Acc>& A = r.acc[iv * (iv + 1) / 2 + jv];
+          if (!asym) { A[k].sw += ww; A[k].sh += ww * d; A[k].sg += ww * pairValue(g.calc, a2 - a1, b2 - b1); }
+          else
+          {
+            A[npas + 1 + k].sw += ww; A[npas + 1 + k].sh += ww * d; A[npas + 1 + k].sg += ww * a1 * b2;
+            A[npas - 1 - k].sw += ww; A[npas - 1 - k].sh += ww * d; A[npas - 1 - k].sg += ww * a2 * b1;
+          }
+        }
+    }
+  }
+  return r;
+}
+
+static std::string gridText(const GCase& g)
+{
+  std::ostringstream o;
+  o << " [GRID " << g.nn[0]; for (int d = 1; d < g.ndim; d++) o << "x" << g.nn[d];
+  o << " mesh " << vstr(g.dx) << (g.rot ? " rotated 30deg" : "") << " npas " << g.npas << (g.multiple ? " directions from createMultipleFromGrid" : " grincr");
+  if (!g.multiple) for (auto& gi : g.gis) o << " " << vstr(gi);
+  o << "]";
+  return o.str();
+}
+
+static bool sameVal(double a, double b, double tol, double scale)
+{
+  if (FFFF(a) || FFFF(b)) return FFFF(a) && FFFF(b);
+  if (std::isnan(a) || std::isnan(b)) return std::isnan(a) && std::isnan(b);
+  if (std::isinf(a) || std::isinf(b)) return a == b;
+  return std::fabs(a - b) <= tol * std::max({scale, std::fabs(a), std::fabs(b)});
+}
+
+static void runGrid(Ctx& C, GCase& g, const std::string& kase, uint64_t sig)
+{
+  setDim(g.ndim);
+  VectorInt nn(g.nn.begin(), g.nn.end()); VectorDouble dx(g.dx.begin(), g.dx.end());
+  VectorDouble x0 = g.ndim == 2 ? VectorDouble {10., -4.} : VectorDouble {10., -4., 2.};
+  VectorDouble ang; if (g.rot) { ang = VectorDouble(g.ndim, 0.); ang[0] = 30.; }
+  DbGrid* grid = DbGrid::create(nn, dx, x0, ang);
+  int n = grid->getSampleNumber(), nvar = (int)g.z.size();
+  for (int iv = 0; iv < nvar; iv++) grid->addColumns(VectorDouble(g.z[iv].begin(), g.z[iv].end()), "z" + std::to_string(iv + 1), ELoc::Z, iv);
+  if (g.hasW) grid->addColumns(VectorDouble(g.w.begin(), g.w.end()), "w", ELoc::W);
+  if (g.hasSel) { VectorDouble s; for (char v : g.sel) s.push_back(v ? 1. : 0.); grid->addColumns(s, "sel", ELoc::SEL); }
+  // directions
+  VarioParam* vpg = nullptr;
+  if (g.multiple)
+  {
+    vpg = VarioParam::createMultipleFromGrid(grid, g.npas);
+    g.gis.clear();
+    for (int d = 0; d < g.ndim; d++) { std::vector<int> gi(g.ndim, 0); gi[d] = 1; g.gis.push_back(gi); }
+  }
+  else
+  {
+    vpg = new VarioParam();
+    for (auto& gi : g.gis) { DirParam* dp = DirParam::createFromGrid(grid, g.npas, VectorInt(gi.begin(), gi.end())); vpg->addDir(*dp); delete dp; }
+  }
+  std::string extra = gridText(g);
+  if (vpg == nullptr || vpg->getDirectionNumber() != (int)g.gis.size())
+  {
+    C.eval(); C.violation("grid:directions", "the grid VarioParam does not hold the " + std::to_string(g.gis.size()) + " requested directions" + extra, kase);
+    delete vpg; delete grid; return;
+  }
+  // the same nodes as isolated points + the equivalent general directions + the grid reference
+  VCase c; c.ndim = g.ndim; c.calc = g.calc; c.z = g.z; c.hasW = g.hasW; c.w = g.w; c.hasSel = g.hasSel; c.sel = g.sel;
+  for (int k = 0; k < n; k++) { VectorDouble xy(g.ndim); grid->getCoordinatesPerSampleInPlace(k, xy); P3 p {0, 0, 0}; for (int d = 0; d < g.ndim; d++) p[d] = xy[d]; c.x.push_back(p); }
+  std::vector<RefDir> refs;
+  for (size_t idir = 0; idir < g.gis.size(); idir++)
+  {
+    double step = 0; for (int d = 0; d < g.ndim; d++) step += (g.gis[idir][d] * g.dx[d]) * (g.gis[idir][d] * g.dx[d]);
+    step = std::sqrt(step);
+    refs.push_back(gridReference(g, g.gis[idir], step));
+    Dir D; D.npas = g.npas; D.dpas = step; D.toldis = 0.01; D.tolang = 0.5;
+    VectorDouble cd = vpg->getDirParam((int)idir).getCodirs(); D.codir.assign(cd.begin(), cd.end());
+    c.dirs.push_back(D);
+  }
+  Vario *vg = nullptr, *vp = nullptr;
+  // (1) grid algorithm vs definition
+  runAndJudge(C, c, kase, sig, "grid", grid, vpg, &refs, &vg, "grid", extra);
+  // (2) general algorithm on the same nodes vs its own reference
+  runAndJudge(C, c, kase, Hash().u(sig).u(7).h, "vario", nullptr, nullptr, nullptr, &vp, nullptr, extra + " (grid nodes as points)");
+  // (3) grid vs general, every slot of every variable pair
+  if (vg != nullptr && vp != nullptr)
+  {
+    bool asym = isAsym(g.calc), hasNA = false;
+    for (auto& zz : g.z) for (double t : zz) if (FFFF(t)) hasNA = true;
+    double zscale = 1; for (auto& zz : g.z) for (double t : zz) if (!FFFF(t)) zscale = std::max(zscale, std::fabs(t));
+    double gscale = g.calc == ORDER4 ? std::pow(2 * zscale, 4) : 4 * zscale * zscale;
+    bool bad = false, any = false;
+    C.eval();
+    for (int idir = 0; idir < (int)g.gis.size() && !bad; idir++)
+      for (int iv = 0; iv < nvar && !bad; iv++)
+        for (int jv = 0; jv <= iv && !bad; jv++)
+        {
+          VectorDouble s1 = vg->getSwVec(idir, iv, jv, false), h1 = vg->getHhVec(idir, iv, jv, false), g1 = vg->getGgVec(idir, iv, jv, false, false, false);
+          VectorDouble s2 = vp->getSwVec(idir, iv, jv, false), h2 = vp->getHhVec(idir, iv, jv, false), g2 = vp->getGgVec(idir, iv, jv, false, false, false);
+          std::string kc = std::string(calcName[g.calc]) + (iv != jv ? ":cross" : "") + (hasNA ? ":heterotopic" : "");
+          auto where = [&](size_t s) { return " dir#" + std::to_string(idir) + " var(" + std::to_string(iv) + "," + std::to_string(jv) + ") slot " + std::to_string(s) + " :: " + caseText(c, idir) + extra; };
+          if (s1.size() != s2.size()) { C.violation("grid-vs-general:vector-size:" + kc, where(0), kase); bad = true; break; }
+          for (size_t s = 0; s < s1.size(); s++)
+          {
+            if (asym && (int)s == g.npas) continue;   // C(0): patched by the same code in both paths, not a pair statistic
+            if (!sameVal(s1[s], s2[s], 1e-12, 1.)) { C.violation("grid-vs-general:sw:" + kc, "grid " + fmt(s1[s]) + " general " + fmt(s2[s]) + where(s), kase); bad = true; break; }
+            if (s1[s] > 0) any = true;
+            if (!sameVal(h1[s], h2[s], 1e-9, 1.)) { C.violation("grid-vs-general:hh:" + kc, "grid " + fmt(h1[s]) + " general " + fmt(h2[s]) + where(s), kase); bad = true; break; }
+            if (!sameVal(g1[s], g2[s], 1e-9, gscale)) { C.violation("grid-vs-general:gg:" + kc, "grid " + fmt(g1[s]) + " general " + fmt(g2[s]) + where(s), kase); bad = true; break; }
+          }
+        }
+    C.outcome(bad ? "VIOLATION:grid-differs-from-general" : any ? "ok:grid==general(pairs-present)" : "ok:grid==general(no-pair)");
+    if (any) C.nontrivial(Hash().u(sig).u(9).h);
+  }
+  delete vg; delete vp; delete vpg; delete grid;
+  setDim(2);
+}
+
+// undefined-value menus per variable on a grid of n nodes (k = node rank)
+static double gridVal(int iv, int k, int pat)
+{
+  double v = iv == 0 ? (double)((k * k + 3 * k) % 7) : iv == 1 ? (double)((3 * k + 1) % 5) : (double)((k * k + k + 2) % 6);
+  bool na = false;
+  switch (pat)
+  {
+    case 0: break;                                                      // isotopic
+    case 1: na = (iv == 0 && k % 3 == 0) || (iv == 1 && k % 4 == 1); break;   // scattered holes, different per variable
+    case 2: na = (iv == 0 && k % 2 == 0); break;                        // Z1 missing on half of the nodes where Z2.. are defined
+    case 3: na = (iv == 1 && k % 2 == 1) || (iv == 2 && k % 3 != 0); break;   // Z2 / Z3 sparse, Z1 complete
+    case 4: na = (iv == 0); break;                                      // Z1 never defined
+  }
+  return na ? TEST : v;
+}
+
+// ---- part: grid, menus on 2..4 x 2..4 grids: nvar 1..3 x undefined patterns x weights x selection x all calculation types ----
 VF_PART(grid)
 {
-  setDim(2);
   static const int GI[6][2] = {{1, 0}, {0, 1}, {1, 1}, {1, -1}, {2, 1}, {2, 0}};
   static const double DX[3][2] = {{1, 1}, {0.5, 2}, {1.5, 0.75}};
   Space sp;
-  sp.axis("calc", 3).axis("nx", 3).axis("ny", 3).axis("dx", 3).axis("rot", 2).axis("grincr", 6).axis("npas", 2).axis("na", 3).axis("sel", 2);
-  for_each_case(C, sp, [&](uint64_t id, const std::vector<int>& idx) {
-    static const int calcs[] = {VARIOGRAM, COVARIANCE_NC, MADOGRAM};
-    int calc = calcs[idx[0]];
-    int nx = 2 + idx[1], ny = 2 + idx[2];
-    VectorInt nn = {nx, ny}; VectorDouble dx = {DX[idx[3]][0], DX[idx[3]][1]}; VectorDouble x0 = {10., -4.};
-    VectorDouble ang = idx[4] ? VectorDouble {30., 0.} : VectorDouble();
-    DbGrid* g = DbGrid::create(nn, dx, x0, ang);
-    int n = nx * ny;
-    VectorDouble z(n), sel(n);
-    for (int k = 0; k < n; k++)
+  sp.axis("calc", NCALC).axis("nvar", 3).axis("na", 5).axis("w", 2).axis("sel", 2).axis("nx", 3).axis("ny", 3).axis("dx", 3).axis("rot", 2).axis("grincr", 7).axis("npas", 2);
+  auto valid = [&](const std::vector<int>& idx) {
+    int nvar = idx[1] + 1;
+    if (nvar == 1 && idx[2] > 2) return false;          // patterns 3,4 need several variables
+    if (nvar == 2 && idx[2] == 3) {}                       // fine
+    if (!C.thorough())
     {
-      z[k] = (double)((k * k + 3 * k) % 7);
-      if (idx[7] == 1 && k % 4 == 1 && !isAsym(calc)) z[k] = TEST;
-      if (idx[7] == 2 && k % 3 == 0 && !isAsym(calc)) z[k] = TEST;
-      sel[k] = (idx[8] && k % 5 == 2) ? 0. : 1.;
+      if (idx[7] != 0 && !(idx[8] == 1 && idx[10] == 0)) return false;   // quick: non-unit meshes only rotated, short
+      if (idx[5] == 1 && idx[6] == 1) return false;                      // quick: skip the 3x3 grid
+      if (idx[3] && idx[4]) return false;                                // quick: weights and selection not together
+      if (idx[9] >= 4 && idx[9] <= 5 && idx[0] > COVARIANCE_NC) return false;
     }
-    g->addColumns(z, "z", ELoc::Z);
-    if (idx[8]) g->addColumns(sel, "sel", ELoc::SEL);
-    int npas = 3 + idx[6];
-    VectorInt gi = {GI[idx[5]][0], GI[idx[5]][1]};
-    DirParam* dp = DirParam::createFromGrid(g, npas, gi);
-    VarioParam vp; vp.addDir(*dp);
-    Vario* v = Vario::computeFromDb(vp, g, calcEnum(calc), false, false, nullptr, 0, false);
-    C.eval();
-    std::string kase = std::to_string(id);
-    std::string desc = "grid " + std::to_string(nx) + "x" + std::to_string(ny) + " mesh " + vstr(dx) + (idx[4] ? " rotated 30" : "") + " grincr " + vstr(gi) + " npas " + std::to_string(npas) + " calc " + calcName[calc] + " na-pattern " + std::to_string(idx[7]) + " sel " + std::to_string(idx[8]);
-    if (v == nullptr) { C.violation("grid:compute-failed", desc, kase); delete dp; delete g; return; }
-    double step = std::hypot(gi[0] * dx[0], gi[1] * dx[1]);
-    bool asym = isAsym(calc);
-    int nslot = asym ? 2 * npas + 1 : npas;
-    std::vector<Acc> A(nslot);
-    for (int j = 0; j < ny; j++) for (int i = 0; i < nx; i++)
-      for (int k = 1; k < npas; k++)
-      {
-        int i2 = i + k * gi[0], j2 = j + k * gi[1];
-        if (i2 < 0 || i2 >= nx || j2 < 0 || j2 >= ny) continue;
-        int a = j * nx + i, b = j2 * nx + i2;
-        if (sel[a] == 0 || sel[b] == 0) continue;
-        if (FFFF(z[a]) || FFFF(z[b])) continue;
-        if (!asym) { A[k].sw += 1; A[k].sh += k * step; A[k].sg += pairValue(calc, z[b] - z[a], z[b] - z[a]); }
-        else { A[npas + 1 + k].sw += 1; A[npas + 1 + k].sh += k * step; A[npas + 1 + k].sg += z[a] * z[b]; A[npas - 1 - k].sw += 1; A[npas - 1 - k].sh += k * step; A[npas - 1 - k].sg += z[a] * z[b]; }
-      }
-    VectorDouble sw = v->getSwVec(0, 0, 0, false), hh = v->getHhVec(0, 0, 0, false), gg = v->getGgVec(0, 0, 0, false, false, false);
-    bool any = false, bad = false;
-    if ((int)sw.size() != nslot) { C.violation("grid:vector-size", desc, kase); bad = true; }
-    for (int s = 0; s < nslot && !bad; s++)
+    return true;
+  };
+  for_each_valid(C, sp, valid, [&](uint64_t id, const std::vector<int>& idx) {
+    GCase g;
+    g.calc = idx[0];
+    int nvar = idx[1] + 1;
+    g.nn = {2 + idx[5], 2 + idx[6]}; g.dx = {DX[idx[7]][0], DX[idx[7]][1]}; g.rot = idx[8];
+    int n = g.nn[0] * g.nn[1];
+    g.z.assign(nvar, std::vector<double>(n));
+    for (int iv = 0; iv < nvar; iv++) for (int k = 0; k < n; k++) g.z[iv][k] = gridVal(iv, k, idx[2]);
+    g.hasW = idx[3]; if (g.hasW) for (int k = 0; k < n; k++) g.w.push_back(1. + ((k * 3) % 4) * 0.25);
+    g.hasSel = idx[4]; if (g.hasSel) for (int k = 0; k < n; k++) g.sel.push_back(k % 5 != 2);
+    g.npas = 3 + idx[10];
+    if (idx[9] == 6) g.multiple = true; else g.gis = {{GI[idx[9]][0], GI[idx[9]][1]}};
+    runGrid(C, g, std::to_string(id), id);
+    if (id % 200003 == 17) C.sample("{\"id\":" + std::to_string(id) + ",\"axes\":" + sp.describe(idx) + "}");
+  });
+}
+
+// ---- part: grid, EVERY defined/undefined pattern of every (node, variable) on tiny grids -----------------------------------
+VF_PART(grid_all_patterns)
+{
+  struct T { int nx, ny, nvar; };
+  static const T tiny[] = {{2, 2, 2}, {3, 2, 2}, {2, 2, 3}, {3, 1, 3}};
+  static const int GI[3][2] = {{1, 0}, {0, 1}, {1, 1}};
+  Space sp;
+  sp.axis("calc", NCALC).axis("grid", 4).axis("grincr", 4).axis("rot", 2).axis("w", 2).axis("sel", 2).axis("pattern", 4096);
+  auto valid = [&](const std::vector<int>& idx) {
+    const T& t = tiny[idx[1]];
+    int bits = t.nx * t.ny * t.nvar;
+    if (idx[6] >> bits) return false;
+    if (t.ny == 1 && (idx[2] == 1 || idx[2] == 2)) return false;   // a single row: only the x direction (and 'multiple')
+    if (!C.thorough())
     {
-      if (asym && s == npas) continue;
-      if (!close(sw[s], A[s].sw, 1e-12)) { C.violation("grid:sw", "number of pairs " + fmt(sw[s]) + " instead of " + fmt(A[s].sw) + " at slot " + std::to_string(s) + " :: " + desc, kase); bad = true; break; }
-      if (A[s].sw <= 0) continue;
-      any = true;
-      double rh = A[s].sh / A[s].sw; if (asym && s < npas) rh = -rh;
-      if (!close(hh[s], rh, 1e-12)) { C.violation("grid:hh", "mean separation " + fmt(hh[s]) + " instead of " + fmt(rh) + " at slot " + std::to_string(s) + " :: " + desc, kase); bad = true; break; }
-      double rg = A[s].sg / A[s].sw;
-      if (FFFF(gg[s]) || std::fabs(gg[s] - rg) > 1e-10 * 200.) { C.violation("grid:gg", "value " + fmt(gg[s]) + " instead of " + fmt(rg) + " at slot " + std::to_string(s) + " :: " + desc, kase); bad = true; break; }
+      if (idx[3] || idx[4] || idx[5]) { if (bits > 8) return false; }   // quick: rotation / weights / selection on the 2x2x2 case only
+      if (bits > 8 && idx[2] == 1) return false;
     }
-    C.outcome(bad ? "VIOLATION" : any ? "ok:grid-pairs-found" : "ok:no-pair");
-    if (any) C.nontrivial(id);
-    // general algorithm on the same nodes (as isolated points) in the same direction must agree with the grid algorithm
-    if (!bad && !asym)
-    {
-      VCase c; c.calc = calc;
-      std::vector<double> zz;
-      for (int k = 0; k < n; k++) { VectorDouble xy(2); g->getCoordinatesPerSampleInPlace(k, xy); c.x.push_back({xy[0], xy[1], 0}); zz.push_back(z[k]); c.sel.push_back(sel[k] != 0); }
-      c.hasSel = idx[8]; c.z.push_back(zz);
-      Dir D; D.npas = npas; D.dpas = step; D.toldis = 0.01; D.tolang = 0.5; VectorDouble cd = dp->getCodirs(); D.codir = {cd[0], cd[1]};
-      c.dirs.push_back(D);
-      Db* pdb = buildDb(c);
-      VarioParam vp2 = buildParam(c);
-      Vario* v2 = Vario::computeFromDb(vp2, pdb, calcEnum(calc), false, false, nullptr, 0, false);
-      C.eval();
-      if (v2 == nullptr) C.violation("grid:general-compute-failed", desc, kase);
-      else
-      {
-        VectorDouble sw2 = v2->getSwVec(0, 0, 0, false), gg2 = v2->getGgVec(0, 0, 0, false, false, false);
-        for (int s = 1; s < npas; s++)
-          if (!close(sw2[s], sw[s], 1e-12) || (sw[s] > 0 && std::fabs(gg2[s] - gg[s]) > 1e-9 * 200.))
-          { C.violation("grid:differs-from-general", "lag " + std::to_string(s) + ": grid sw/gg " + fmt(sw[s]) + "/" + fmt(gg[s]) + " general " + fmt(sw2[s]) + "/" + fmt(gg2[s]) + " :: " + desc, kase); break; }
-        C.outcome("grid-vs-general-compared");
-      }
-      delete v2; delete pdb;
-    }
-    delete v; delete dp; delete g;
+    else if (bits > 8 && idx[4] && idx[5]) return false;
+    return true;
+  };
+  for_each_valid(C, sp, valid, [&](uint64_t id, const std::vector<int>& idx) {
+    const T& t = tiny[idx[1]];
+    GCase g;
+    g.calc = idx[0];
+    g.nn = {t.nx, t.ny}; g.dx = {1., 0.75}; g.rot = idx[3];
+    int n = t.nx * t.ny;
+    g.z.assign(t.nvar, std::vector<double>(n));
+    for (int iv = 0; iv < t.nvar; iv++) for (int k = 0; k < n; k++)
+      g.z[iv][k] = (idx[6] >> (iv * n + k) & 1) ? TEST : gridVal(iv, k, 0);
+    g.hasW = idx[4]; if (g.hasW) for (int k = 0; k < n; k++) g.w.push_back(1. + ((k * 3) % 4) * 0.25);
+    g.hasSel = idx[5]; if (g.hasSel) for (int k = 0; k < n; k++) g.sel.push_back(k != 1);
+    g.npas = 3;
+    if (idx[2] == 3) g.multiple = true; else g.gis = {{GI[idx[2]][0], GI[idx[2]][1]}};
+    runGrid(C, g, std::to_string(id), id);
+    if (id % 1000003 == 29) C.sample("{\"id\":" + std::to_string(id) + ",\"axes\":" + sp.describe(idx) + "}");
+  });
+}
+
+// ---- part: 3-D grids ------------------------------------------------------------------------------------------------------------
+VF_PART(grid_3d)
+{
+  static const int GI[6][3] = {{1, 0, 0}, {0, 1, 0}, {0, 0, 1}, {1, 1, 0}, {0, 1, 1}, {1, 0, -1}};
+  Space sp;
+  sp.axis("calc", NCALC).axis("nvar", 2).axis("na", 4).axis("w", 2).axis("sel", 2).axis("rot", 2).axis("grincr", 7).axis("shape", 2);
+  auto valid = [&](const std::vector<int>& idx) {
+    if (!C.thorough() && ((idx[3] && idx[4]) || (idx[5] && idx[7]))) return false;
+    return true;
+  };
+  for_each_valid(C, sp, valid, [&](uint64_t id, const std::vector<int>& idx) {
+    GCase g; g.ndim = 3;
+    g.calc = idx[0];
+    int nvar = idx[1] + 2;
+    g.nn = idx[7] ? std::vector<int> {2, 3, 3} : std::vector<int> {3, 2, 2}; g.dx = {1., 0.75, 0.5}; g.rot = idx[5];
+    int n = g.nn[0] * g.nn[1] * g.nn[2];
+    static const int pats[] = {0, 1, 2, 3};
+    g.z.assign(nvar, std::vector<double>(n));
+    for (int iv = 0; iv < nvar; iv++) for (int k = 0; k < n; k++) g.z[iv][k] = gridVal(iv, k, pats[idx[2]]);
+    g.hasW = idx[3]; if (g.hasW) for (int k = 0; k < n; k++) g.w.push_back(1. + ((k * 3) % 4) * 0.25);
+    g.hasSel = idx[4]; if (g.hasSel) for (int k = 0; k < n; k++) g.sel.push_back(k % 5 != 2);
+    g.npas = 3;
+    if (idx[6] == 6) g.multiple = true; else g.gis = {{GI[idx[6]][0], GI[idx[6]][1], GI[idx[6]][2]}};
+    runGrid(C, g, std::to_string(id), id);
   });
 }
 
